@@ -62,7 +62,7 @@ theorem tokensOf_of_Lexes {inp : Bytes} {ts : List Tok} (h : Lexes inp ts) : tok
 /-- the single-byte ignored characters: TAB, LF, CR, space, comma -/
 def blankByte (b : Nat) : Bool := b == 9 || b == 10 || b == 13 || b == 32 || b == 44
 
-def AllBlank (bs : Bytes) : Prop := ∀ b ∈ bs, blankByte b = true
+def AllIgnored (bs : Bytes) : Prop := ∀ b ∈ bs, blankByte b = true
 
 theorem ws_plain (b : Nat) (r : Bytes) (c : Cur) (h : b = 9 ∨ b = 32 ∨ b = 44) :
     ws (b :: r) c = ws r (c.adv 1 1) := by
@@ -115,7 +115,7 @@ theorem Lexes_blank_cons {r : Bytes} {ts : List Tok} (b : Nat) (hb : blankByte b
     obtain ⟨c', e⟩ := readToken_blank b r c hb
     rw [e]; exact hstep c'
 
-theorem Lexes_blank {bl r : Bytes} {ts : List Tok} (hb : AllBlank bl) (h : Lexes r ts) : Lexes (bl ++ r) ts := by
+theorem Lexes_blank {bl r : Bytes} {ts : List Tok} (hb : AllIgnored bl) (h : Lexes r ts) : Lexes (bl ++ r) ts := by
   induction bl with
   | nil => simpa using h
   | cons b bl ih =>
@@ -180,7 +180,7 @@ theorem LexTo.append {a b : Bytes} {ts us : List Tok} {tga tgb : Bool}
   simpa [List.append_assoc] using h2
 
 /-- ignored bytes after a text: whatever follows is free -/
-theorem LexTo.blank {txt bl : Bytes} {ts : List Tok} {tg : Bool} (h : LexTo txt ts tg) (hb : AllBlank bl)
+theorem LexTo.blank {txt bl : Bytes} {ts : List Tok} {tg : Bool} (h : LexTo txt ts tg) (hb : AllIgnored bl)
     (hne : bl ≠ []) : LexTo (txt ++ bl) ts false := by
   intro post ts' _ hl
   have h1 : Lexes (bl ++ post) ts' := Lexes_blank hb hl
@@ -191,7 +191,7 @@ theorem LexTo.blank {txt bl : Bytes} {ts : List Tok} {tg : Bool} (h : LexTo txt 
   simpa [List.append_assoc] using h (bl ++ post) ts' hf h1
 
 /-- ignored bytes (possibly none) after a text -/
-theorem LexTo.blank' {txt bl : Bytes} {ts : List Tok} {tg : Bool} (h : LexTo txt ts tg) (hb : AllBlank bl) :
+theorem LexTo.blank' {txt bl : Bytes} {ts : List Tok} {tg : Bool} (h : LexTo txt ts tg) (hb : AllIgnored bl) :
     LexTo (txt ++ bl) ts tg := by
   by_cases hne : bl = []
   · subst hne; simpa using h
